@@ -191,6 +191,7 @@ C_TYPES = {t.name: t for t in [
     CType("long long", 64, True), CType("unsigned long long", 64, False),
     CType("_Bool", 1, False, is_bool=True),
 ]}
+C_TYPES["bool"] = C_TYPES["_Bool"]      # clang 14 spells the builtin _Bool "bool" in its dumps
 T_CHAR, T_INT = C_TYPES["char"], C_TYPES["int"]
 
 
@@ -623,23 +624,19 @@ def translate_function(fn, decls, strchr_is_library):
 
 
 def resolve_return_type(fdecl, spelled, body):
-    """The function's return type (spelled `spelled` in the source) as a CType.  For a typedef
-    name (uint8_t) the FunctionDecl does not carry the resolved type, but clang converts every
-    returned expression to the return type, and expression nodes do carry it: take it from the
-    `return` statements whose spelled type equals the declared one; they must all agree."""
-    plain = " ".join(w for w in spelled.split() if w not in ("const", "volatile"))
-    if plain in C_TYPES:
-        return C_TYPES[plain]
+    """The function's return type (spelled `spelled` in the source) as a CType.  The
+    FunctionDecl node does not carry the typedef-resolved type (uint8_t, or a user typedef
+    that merely looks like a builtin name), but clang converts every returned expression to
+    the return type, and expression nodes do carry it: take it from the `return` statements
+    whose spelled type equals the declared one; they must all agree."""
     found = set()
 
     def walk(n):
-        if isinstance(n, dict):
-            if n.get("kind") == "ReturnStmt" and n.get("inner"):
-                t = n["inner"][0].get("type", {})
-                if t.get("qualType") == spelled and "desugaredQualType" in t:
-                    found.add(ctype_of(n["inner"][0], "returned expression"))
-            for c in n.get("inner", []):
-                walk(c)
+        if n.get("kind") == "ReturnStmt" and n.get("inner"):
+            if n["inner"][0].get("type", {}).get("qualType") == spelled:
+                found.add(ctype_of(n["inner"][0], "returned expression"))
+        for c in n.get("inner", []):
+            walk(c)
     walk(body)
     if len(found) != 1:
         refuse(fdecl, "cannot resolve the return type '%s' to an integer type" % spelled)
